@@ -7,10 +7,14 @@
   * `encode`    : json.Marshal;
   * `decodable` : json.Decoder with DisallowUnknownFields accepts the document for the type;
   * `InDomain`  : the domain of the properties (H_D14: pairwise distinct JSON names; H_D15: tag names that
-                  encoding/json accepts; no named types; string-keyed maps).
+                  encoding/json accepts; no named types; string-keyed maps);
+  * `InDomainN` : … with declared (named) types, which encoding/json treats like their underlying types
+                  (`erase`); `NamedOk`: the side condition under which `forType` does so too.
 
   Not modelled (outside the fragment, excluded by the harness domain as well): nil maps (json.Marshal
-  writes `null`), embedded fields, the `,string` option, Marshaler implementations, []byte.
+  writes `null`), embedded fields (JSV/Spec/EncJsonEmb.lean), the `,string` option, []byte, Marshaler implementations
+  other than "the JSON form is a string" (see "declared (named) types" below: a declared type without marshal methods
+  is its underlying type; a marshaler type whose output is a JSON string is `.named n (.basic "String")`).
   A Go map is represented by its entries in increasing key order, which is the order json.Marshal emits.
 -/
 import JSV.Model.Infer
@@ -166,7 +170,7 @@ mutual
     | .struct fields, v => (match v with
         | .struct vs => HasTypeFields fields vs
         | _ => False)
-    | .named _ _, _ => False
+    | .named _ u, v => HasType u v          -- a declared type without marshal methods: the values of its underlying type
     | .ref _, _ => False
   def HasTypeFields : List (String × String × GoType) → List GoValue → Prop
     | [], vs => vs = []
@@ -201,7 +205,7 @@ mutual
     | .struct fields, v => (match v with
         | .struct vs => .obj (encodeFields fields vs)
         | _ => .null)
-    | .named _ _, _ => .null
+    | .named _ u, v => encode u v            -- … encoded like its underlying type
     | .ref _, _ => .null
   /-- the members of a struct: the fields in order, without the omitted ones -/
   def encodeFields : List (String × String × GoType) → List GoValue → List (String × Json)
@@ -250,7 +254,7 @@ mutual
             | some b => b
             | none => (decodableFold fields p.1 p.2).getD false    -- no field at all: unknown field error
         | _ => false)
-    | .named _ _, _ => false
+    | .named _ u, j => decodable u j         -- … decoded like its underlying type
     | .ref _, _ => false
   /-- the field whose JSON name is exactly the key, if any -/
   def decodableExact : List (String × String × GoType) → String → Json → Option Bool
@@ -306,6 +310,105 @@ mutual
     | [] => true
     | f :: rest => ((fieldJSONInfo f.1 f.2.1).omitted || InDomain f.2.2) && inDomainFields rest
 end
+
+/-! ### declared (named) types
+
+  For encoding/json a declared type WITHOUT marshal methods (`type Point struct{…}`, `type Celsius float64`,
+  `type IDs []int`) is its underlying type: `HasType`, `encode` and `decodable` above look through `.named`.
+  `erase T` is `T` with every declared type replaced by its underlying type; `InDomainN` is `InDomain` with
+  declared types allowed (`inDomainN_eq_erase`: `InDomainN T = InDomain (erase T)`).
+
+  A declared type WITH a `MarshalJSON` / `MarshalText` method whose output is a JSON string (time.Time, slog.Level,
+  big.Rat, big.Float — the entries of `initialSchemaMap` other than big.Int, which marshals as a number: known
+  finding D13) is represented as `.named n (.basic "String")`: its values are `GoValue.str s`, `s` being the
+  marshaled text, and `encode` gives `.str s`.  What is modelled of such a type is exactly this: every value
+  marshals to some JSON string; nothing is said about which strings occur. -/
+
+mutual
+  /-- every declared type replaced by its underlying type -/
+  def erase : GoType → GoType
+    | .basic kind => .basic kind
+    | .ptr e => .ptr (erase e)
+    | .slice e => .slice (erase e)
+    | .array n e => .array n (erase e)
+    | .map keyKind e => .map keyKind (erase e)
+    | .struct fields => .struct (eraseFields fields)
+    | .named _ u => erase u
+    | .ref n => .ref n
+  def eraseFields : List (String × String × GoType) → List (String × String × GoType)
+    | [] => []
+    | f :: rest => (f.1, f.2.1, erase f.2.2) :: eraseFields rest
+end
+
+mutual
+  /-- `InDomain` with declared types (H_D14 and H_D15 as there; `.ref`, a back reference of a recursive type, stays
+      outside) -/
+  def InDomainN : GoType → Bool
+    | .basic kind => domainKinds.contains kind
+    | .ptr e => InDomainN e
+    | .slice e => InDomainN e
+    | .array _ e => InDomainN e
+    | .map keyKind e => keyKind == "String" && InDomainN e
+    | .struct fields =>
+      nodup (jsonNames fields) &&
+      fields.all (fun f => fieldTagOk f.1 f.2.1) &&
+      inDomainFieldsN fields
+    | .named _ u => InDomainN u
+    | .ref _ => false
+  def inDomainFieldsN : List (String × String × GoType) → Bool
+    | [] => true
+    | f :: rest => ((fieldJSONInfo f.1 f.2.1).omitted || InDomainN f.2.2) && inDomainFieldsN rest
+end
+
+/-- the underlying type of a declared type, as the model of `forType` knows it: a basic kind, a slice, an array, a map
+    or a struct.  (`type P *T` is not modelled — `Go.inferStep` answers `panic` —, and the underlying type of a
+    declared type is never a declared type.) -/
+def namedShape : GoType → Bool
+  | .basic _ => true
+  | .slice _ => true
+  | .array _ _ => true
+  | .map _ _ => true
+  | .struct _ => true
+  | _ => false
+
+def isStringKind : GoType → Bool
+  | .basic kind => kind == "String"
+  | _ => false
+
+mutual
+  /-- **the declared types of `T` are transparent for `forType`** (decidable).  `seen` is the list of declared types
+      being expanded (the argument of `forType`; `[]` at the root).  For every declared type `.named n u` that occurs
+      in `T` — in any field, the `json:"-"` ones included —:
+      * `n` is not being expanded: no name occurs twice along one root-to-leaf path (the cycle check of `forType` fires
+        otherwise; the same name at two sibling positions is fine, `seen` is path-local);
+      * if `n` is not one of the marshaler types `strs`: `n` has no entry in the type table, and `u` is a basic kind,
+        slice, array, map or struct (`namedShape`) whose declared types are transparent again;
+      * if `n` is one of the marshaler types `strs` (types whose table entry is the schema `{"type":"string"}`, see
+        `StrEntries`): it has an entry, it is represented as `.named n (.basic "String")`, and `null` is added to the
+        clones of table entries for pointers (`nullForSlices`, the default). -/
+  def NamedOk (opts : Go.IOpts) (strs : List String) : List String → GoType → Bool
+    | _, .basic _ => true
+    | seen, .ptr e => NamedOk opts strs seen e
+    | seen, .slice e => NamedOk opts strs seen e
+    | seen, .array _ e => NamedOk opts strs seen e
+    | seen, .map _ e => NamedOk opts strs seen e
+    | seen, .struct fields => namedOkFields opts strs seen fields
+    | seen, .named n u =>
+      !seen.contains n &&
+      (if strs.contains n then opts.nullForSlices && (Json.lookup n opts.schemas).isSome && isStringKind u
+       else (Json.lookup n opts.schemas).isNone && namedShape u && NamedOk opts strs (n :: seen) u)
+    | _, .ref _ => false
+  def namedOkFields (opts : Go.IOpts) (strs : List String) : List String → List (String × String × GoType) → Bool
+    | _, [] => true
+    | seen, f :: rest => NamedOk opts strs seen f.2.2 && namedOkFields opts strs seen rest
+end
+
+/-- the schema `{"type":"string"}` -/
+def strNode : Node := { type := "string" }
+
+/-- every marshaler type of `strs` has an entry in the type table, and the entry is the schema `{"type":"string"}` -/
+def StrEntries (schemas : List (String × NodeId)) (strs : List String) (st : Store) : Prop :=
+  ∀ n, n ∈ strs → ∀ sid, Json.lookup n schemas = some sid → st.get? sid = some strNode
 
 mutual
   /-- how many nested schema applications the schema of the type needs at most -/
